@@ -224,4 +224,64 @@ example : mergeAll [([1,2,3], [10,11,12]), ([7,8,9], [20,21,22])] = some ([1,2,3
 example : findBestOverlap [1,2,3,4,5] [4,5,6] = 2 := by decide
 example : windows 100 40 = [(0, 40), (30, 70), (60, 100)] := by decide
 
+/-- `find_best_overlap` returns the FIRST overlap length of minimum character error rate below 1, and 0 exactly when no
+overlap length has an error rate below 1 (error rates compared as exact fractions `ovDist i / i`). -/
+theorem findBestOverlap_spec (t1 t2 : List α) :
+    (findBestOverlap t1 t2 = 0 → ∀ i, 1 ≤ i → i ≤ min t1.length t2.length → i ≤ ovDist t1 t2 i) ∧
+    (1 ≤ findBestOverlap t1 t2 →
+      ovDist t1 t2 (findBestOverlap t1 t2) < findBestOverlap t1 t2 ∧
+      ∀ i, 1 ≤ i → i ≤ min t1.length t2.length →
+        ovDist t1 t2 (findBestOverlap t1 t2) * i ≤ ovDist t1 t2 i * findBestOverlap t1 t2 ∧
+        (i < findBestOverlap t1 t2 →
+          ovDist t1 t2 (findBestOverlap t1 t2) * i < ovDist t1 t2 i * findBestOverlap t1 t2)) := by
+  obtain ⟨_, _, hcase, hle, hlt⟩ := findBestOverlap_inv t1 t2
+  unfold findBestOverlap
+  generalize (List.range (min t1.length t2.length)).foldl (overlapStep t1 t2) (1, 1, 0) = st at *
+  constructor
+  · intro h0 i h1 h2
+    rcases hcase with ⟨_, hn, hd⟩ | ⟨hb, _⟩
+    · have := hle i h1 h2; rw [hn, hd] at this; omega
+    · omega
+  · intro hb
+    rcases hcase with ⟨h0, _, _⟩ | ⟨_, _, hn, hd, hnd⟩
+    · omega
+    · rw [hn, hd] at hnd
+      refine ⟨hnd, fun i h1 h2 => ⟨?_, fun h3 => ?_⟩⟩
+      · have := hle i h1 h2; rwa [hn, hd] at this
+      · have := hlt i h1 h3; rwa [hn, hd] at this
+
+/-- Windows of one text: when some suffix of the text so far literally IS a prefix of the next part, an overlap is detected, the
+detected overlap is itself a literal one (error rate 0), and it is the SHORTEST literal overlap. -/
+theorem exact_overlap_found (t1 t2 : List α)
+    (h : ∃ i, 1 ≤ i ∧ i ≤ min t1.length t2.length ∧ t1.drop (t1.length - i) = t2.take i) :
+    1 ≤ findBestOverlap t1 t2 ∧
+    t1.drop (t1.length - findBestOverlap t1 t2) = t2.take (findBestOverlap t1 t2) ∧
+    ∀ j, 1 ≤ j → j < findBestOverlap t1 t2 → t1.drop (t1.length - j) ≠ t2.take j := by
+  obtain ⟨i, hi1, hi2, heq⟩ := h
+  obtain ⟨h0, hpos⟩ := findBestOverlap_spec t1 t2
+  have hdi : ovDist t1 t2 i = 0 := by unfold ovDist; rw [heq]; exact Lev.dist_self _ _
+  have hb : 1 ≤ findBestOverlap t1 t2 := by
+    rcases Nat.eq_zero_or_pos (findBestOverlap t1 t2) with hz | hp
+    · have := h0 hz i hi1 hi2; omega
+    · exact hp
+  obtain ⟨_, hall⟩ := hpos hb
+  have hle := (hall i hi1 hi2).1
+  rw [hdi, Nat.zero_mul] at hle
+  have hdo : ovDist t1 t2 (findBestOverlap t1 t2) = 0 := by
+    rcases Nat.eq_zero_or_pos (ovDist t1 t2 (findBestOverlap t1 t2)) with hz | hp
+    · exact hz
+    · have := Nat.mul_pos hp (show 0 < i by omega); omega
+  refine ⟨hb, (Lev.dist_unit_eq_zero_iff _ _).mp hdo, ?_⟩
+  intro j hj1 hj2 hje
+  have hj3 : j ≤ min t1.length t2.length := by
+    have := findBestOverlap_le t1 t2; omega
+  have hlt := (hall j hj1 hj3).2 hj2
+  have hdj : ovDist t1 t2 j = 0 := by unfold ovDist; rw [hje]; exact Lev.dist_self _ _
+  rw [hdo, hdj] at hlt; simp at hlt
+
+/-! Non-vacuity: 'abcab' + 'abxy' has the literal overlaps 'ab' only; the shortest literal overlap wins over a longer one
+('abab' + 'abab': 2, not 4); unrelated strings: 0. -/
+example : findBestOverlap [1, 2, 3, 1, 2] [1, 2, 7, 8] = 2 ∧ findBestOverlap [1, 2, 1, 2] [1, 2, 1, 2] = 2 ∧
+    findBestOverlap [1, 2, 3] [4, 5, 6] = 0 := by decide
+
 end C15
